@@ -90,6 +90,22 @@ def _design_check(a):
     for row in g._search.searchTracker:
         if abs(row[1] - max(row[2] - sp.max_EFT_allowable, sp.min_EFT_allowable - row[3])) > 1e-12:
             return False, {"why": "search-log row inconsistent", "row": row[1:]}
+    # C12: the summary describes the returned design
+    g.prepare_results("p", "n", "a", "i")
+    od = g.results.output_dict
+    nb = od["ghe_system"]["number_of_boreholes"]
+    rows = g.results.borehole_location_data_rows
+    if not (nb == len(rows) - 1 == len(g._search.selected_coordinates) if hasattr(g._search, "selected_coordinates") else nb == len(rows) - 1):
+        return False, {"why": "number_of_boreholes differs from the coordinate rows", "nb": nb, "rows": len(rows) - 1}
+    if [list(r) for r in rows[1:]] != [[c[0], c[1]] for c in ghe.gFunction.bore_locations]:
+        return False, {"why": "bore-field table is not the selected field"}
+    if abs(od["ghe_system"]["total_drilling"]["value"] - nb * H) > 1e-9 * nb * H or od["ghe_system"]["active_borehole_length"]["value"] != H:
+        return False, {"why": "total drilling / active length inconsistent", "total": od["ghe_system"]["total_drilling"]["value"], "nb": nb, "H": H}
+    sr = od["simulation_results"]
+    if abs(sr["max_hp_eft"]["value"] - mx) > 1e-3 or abs(sr["min_hp_eft"]["value"] - mn) > 1e-3:
+        return False, {"why": "summary EFT are not those of the reported height", "summary": [sr["max_hp_eft"]["value"], sr["min_hp_eft"]["value"]], "resimulated": [mx, mn]}
+    if od["design_selection_search_log"]["data"] is not g._search.searchTracker:
+        return False, {"why": "search log is not the search tracker"}
     return True, {"H": H, "nbh": ghe.nbh, "excess": excess}
 
 
@@ -97,7 +113,7 @@ def _design_gen(rng):
     kind = rng.choice(["heating", "cooling", "balanced", "constant"])
     scale = rng.choice([1.0e2, 5.0e3, 2.0e4, 6.0e4, 1.5e5, 1.0e6])
     return {"kind": kind, "scale": scale, "phase": rng.randrange(0, 365, 30), "cont": scale in (1.0e2, 1.0e6) or rng.random() < 0.3,
-            "length": rng.choice([12.0, 24.0, 30.0]), "months": rng.choice([12, 24, 36]), "flow_type": rng.choice(["borehole", "system"]),
+            "length": rng.choice([12.0, 24.0, 30.0]), "months": rng.choice([12, 18, 24, 36]), "flow_type": rng.choice(["borehole", "system"]),
             "geom": rng.choice(["near_square", "rectangle"])}
 
 
